@@ -7,9 +7,11 @@
    n = 1 in NS is the single-level call (dEF guessed by the code, see SingleLevelOK).
    The accumulation runs k-point by k-point (one transition per k-point, as the loop of the code), then the differences. *)
 EXTENDS FermiScan
-CONSTANTS NK, NBS, EMAX, THS, QS, AS1, ASHIFT, DS, NS, SELS, WrongBinning
-VARIABLES E, vmode, th, kr, grid, fder, sel, kres, pc, ik, X, res, taken
-vars == <<E, vmode, th, kr, grid, fder, sel, kres, pc, ik, X, res, taken>>
+CONSTANTS NK, NBS, EMAX, THS, QS, AS1, ASHIFT, DS, NS, SELS, WrongBinning,
+          InsideMode     \* "outside": inputs with NoLevelInsideGroup (exact values are bound to the code); "inside": inputs where a level
+                         \* lies inside a group (bound by the representation-free clauses only); "any": both
+VARIABLES E, vmode, th, kr, grid, fder, sel, kres, pc, ik, X, res, taken, inside, lowin
+vars == <<E, vmode, th, kr, grid, fder, sel, kres, pc, ik, X, res, taken, inside, lowin>>
 
 SortedArrays(n) == {s \in [1..n -> 0..EMAX] : \A k \in 1..(n - 1) : s[k] <= s[k + 1]}
 Pow5(n) == LET P[j \in 0..n] == IF j = 0 THEN 1 ELSE 5 * P[j - 1] IN P[n]
@@ -38,7 +40,10 @@ Init == /\ \E nb \in NBS : E \in [1..NK -> SortedArrays(nb)]
         /\ Supported(fder, sel)
         /\ (sel.on => \A b \in sel.bands : b < Len(E[1]))
         /\ (NK = 1 => ~kres)
-        /\ NoTie /\ NoLevelInsideGroup /\ SingleLevelOK(grid, th)
+        /\ NoTie /\ SingleLevelOK(grid, th)
+        /\ inside = ~NoLevelInsideGroup
+        /\ (InsideMode = "outside" => ~inside) /\ (InsideMode = "inside" => inside)
+        /\ lowin = \E k \in 1..NK : LowestLevelInsideGroupK(E[k], th, kr, grid, fder)
         /\ pc = "acc" /\ ik = 1
         /\ X = [r \in 1..NKres |-> ZeroRow(grid, fder)]
         /\ res = <<>> /\ taken = {}
@@ -47,12 +52,12 @@ Accumulate == /\ pc = "acc" /\ ik <= NK
               /\ LET r == IF kres THEN ik ELSE 1 IN X' = [X EXCEPT ![r] = AccK(X[r], ik)]
               /\ taken' = taken \cup BranchesTaken(E[ik], th, kr, grid, fder, sel)
               /\ ik' = ik + 1 /\ pc' = (IF ik = NK THEN "diff" ELSE "acc")
-              /\ UNCHANGED <<E, vmode, th, kr, grid, fder, sel, kres, res>>
+              /\ UNCHANGED <<E, vmode, th, kr, grid, fder, sel, kres, res, inside, lowin>>
 (* finite differences, / nk *)
 Differences == /\ pc = "diff"
                /\ res' = [r \in 1..NKres |-> FinishRow(X[r], grid, fder, IF kres THEN 1 ELSE NK)]
                /\ pc' = "done"
-               /\ UNCHANGED <<E, vmode, th, kr, grid, fder, sel, kres, ik, X, taken>>
+               /\ UNCHANGED <<E, vmode, th, kr, grid, fder, sel, kres, ik, X, taken, inside, lowin>>
 Next == Accumulate \/ Differences
 Spec == Init /\ [][Next]_vars
 
@@ -72,6 +77,14 @@ KResolvedSumsToUnresolved ==
    (Done /\ kres) =>
       LET u == Scan(E, V, th, kr, grid, fder, sel, FALSE)[1] IN
       \A i \in 1..grid.n : RDivI(RSumK(res, i, NK), NK) = u[i]
+(* representation-free: the sea lies between the bounds "groups with top <= level" and "groups with bottom <= level" *)
+SeaWithinBounds ==
+   (Done /\ fder = 0) =>
+      LET lo == [k \in 1..NK |-> SeaBoundRowK(E[k], V[k], th, kr, sel, grid, FALSE)]
+          hi == [k \in 1..NK |-> SeaBoundRowK(E[k], V[k], th, kr, sel, grid, TRUE)]
+          L == IF kres THEN [k \in 1..NK |-> Normalise(lo[k], grid, 0, 1)] ELSE <<Normalise(SumRows(lo, NK), grid, 0, NK)>>
+          H == IF kres THEN [k \in 1..NK |-> Normalise(hi[k], grid, 0, 1)] ELSE <<Normalise(SumRows(hi, NK), grid, 0, NK)>>
+      IN \A r \in 1..NKres : \A i \in 1..grid.n : RLe(L[r][i], res[r][i]) /\ RLe(res[r][i], H[r][i])
 (* cumulative DOS: identity formula, fder = 0 *)
 CumDosShape ==
    (Done /\ vmode = "ones" /\ fder = 0 /\ ~kres) =>
